@@ -25,6 +25,10 @@ CLAIMED = {
     'C05': dict(ref='5 (C05)', tech=TECH, note=NOTE + ' Callee summaries (restriction halves exactly the pattern directions; residual/smoothing do not touch cycling state) are assumed here and discharged under C04/C01.',
                 text='Proof over all paths of _current_sc_dir/_current_lr_dir, _max_level (loop invariant with the spec function H), parameter '
                      'set-up, and multigrid (recursion invariant, V/W/F child-call structure, one generic fine-grid cycle): unbounded in shape, level and limits.'),
+    'C13': dict(ref='5 (C13)', tech=TECH, note=NOTE + ' xarray behaviour (attribute-style access, copy(data=), sel, NaN-skipping sum) is an assumed dependency contract; sqrt/abs/conj are uninterpreted element-wise functions.',
+                text='Proof over all paths and all scalar/array/absent combinations: the standard-deviation getter returns the explicit array or sqrt(nf^2+(re|d|)^2) in a fresh array or None; '
+                     'setters reject non-positive values and keep arrays in fresh storage; add_noise writes only data[add_to]; misfit, select and to_dict write none of the noise parameters; '
+                     'the misfit summand is std^-2 |syn-obs|^2 with weights in fresh storage; a selection cuts every data set to exactly the requested labels. Plus bounded checks on real surveys/simulations.'),
     'C14': dict(ref='5 (C14)', tech=TECH + '; exp/log identities of the Map classes decided by computer algebra (sympy) on terms read from the source',
                 note=NOTE + ' sympy simplification trusted for the transcendental identities (numeric 50-digit cross-check); IEEE facts about NaN comparisons are axioms.',
                 text='For each of the six mappings, read from the current source: forward is the documented map, backward o forward = id on positive conductivities, '
